@@ -98,10 +98,11 @@ func (h *helper) call(req any, res any) {
 }
 
 type serverRes struct {
-	Verdict string
-	Status  int
-	Semver  bool
-	Stored  bool
+	Verdict  string
+	Status   int
+	Semver   bool
+	Stored   bool
+	Statuses []int
 }
 
 type viewRow struct {
@@ -449,6 +450,45 @@ func caseApproval() {
 	} else {
 		f = append(f, "noagain")
 	}
+	// a freshly started server (one configuration object, one handler) receiving the uploader's
+	// report from several clients at the same moment; the configuration is the case's plus an
+	// unrelated counter with a very long bucket list on every program of the report (so that
+	// whatever the server prepares per program takes a while)
+	nitems := 0
+	for _, p := range base.Programs {
+		nitems += len(p.Counters) + len(p.Stacks)
+	}
+	if body != nil && nitems > 0 && rnd.Chance(4) {
+		big := cloneConfig(ucfg)
+		var sb strings.Builder
+		sb.WriteString("zzbig:{")
+		for i := 0; i < 120000; i++ {
+			if i > 0 {
+				sb.WriteByte(',')
+			}
+			sb.WriteString("b")
+			sb.WriteString(strconv.Itoa(i))
+		}
+		sb.WriteString("}")
+		inReport := map[string]bool{}
+		for _, p := range base.Programs {
+			inReport[p.Program] = true
+		}
+		for _, p := range big.Programs {
+			if inReport[p.Name] {
+				p.Counters = append([]telemetry.CounterConfig{{Name: sb.String(), Rate: 1}}, p.Counters...)
+			}
+		}
+		var res serverRes
+		server.call(map[string]any{"Cfg": big, "Report": string(body), "Burst": 8}, &res)
+		f = append(f, "burst", I(int64(len(res.Statuses))))
+		for _, st := range res.Statuses {
+			f = append(f, I(int64(st)))
+		}
+		out.Note("burst")
+	} else {
+		f = append(f, "noburst")
+	}
 	// the uploader at X = 0 (the most permissive X) on the whole week
 	anyCount := false
 	for _, fs := range files {
@@ -578,6 +618,46 @@ func pageSummaries(body string) map[string]string {
 		}
 		res[html.UnescapeString(m[1])] = sum
 	}
+	return res
+}
+
+var chartProgRE = regexp.MustCompile(`(?s)<h3 id="[^"]*" data-label="([^"]*)">`)
+var chartNameRE = regexp.MustCompile(`(?s)<h4 id="[^"]*" data-label="([^"]*)">(.*?)</h4>`)
+
+type chartFlag struct {
+	prog, name string
+	active     bool
+}
+
+// pageCharts: the charts of the page's Charts section: program, chart name,
+// and whether the chart is shown WITHOUT "This counter is not present in the telemetry config"
+func pageCharts(body string) []chartFlag {
+	var res []chartFlag
+	i := strings.Index(body, `<section class="Charts">`)
+	if i < 0 {
+		return res
+	}
+	sec := body[i:]
+	if j := strings.Index(sec, "</section>"); j >= 0 {
+		sec = sec[:j]
+	}
+	for _, blk := range strings.Split(sec, `<div class="Chart">`)[1:] {
+		pm := chartProgRE.FindStringSubmatch(blk)
+		if pm == nil {
+			continue
+		}
+		prog := html.UnescapeString(pm[1])
+		for _, cm := range chartNameRE.FindAllStringSubmatch(blk, -1) {
+			res = append(res, chartFlag{prog, html.UnescapeString(cm[1]),
+				!strings.Contains(cm[2], "This counter is not present in the telemetry config")})
+		}
+	}
+	sort.Slice(res, func(a, b int) bool {
+		if res[a].prog != res[b].prog {
+			return res[a].prog < res[b].prog
+		}
+		return res[a].name < res[b].name
+	})
 	return res
 }
 
@@ -736,6 +816,14 @@ func casePages() {
 			}
 			f = append(f, class)
 			f = append(f, WStrs(names)...)
+		}
+		charts := pageCharts(res.Pages[i].Body)
+		f = append(f, I(int64(len(charts))))
+		for _, c := range charts {
+			f = append(f, HS(c.prog), HS(c.name), B(c.active))
+			if !c.active {
+				out.Note("chart-flagged-absent")
+			}
 		}
 	}
 	out.Note(fmt.Sprintf("pages-%d", len(reqs)))
